@@ -80,7 +80,17 @@ fn write_summary(ctx: &Ctx, prop: &str, s: &Summary, rule: &str, extra: &str) {
     std::fs::create_dir_all(&ctx.out).unwrap();
     let mut rq = std::io::BufWriter::new(std::fs::File::create(format!("{}/requests.txt", ctx.out)).unwrap());
     let mut im = std::io::BufWriter::new(std::fs::File::create(format!("{}/impl.txt", ctx.out)).unwrap());
+    // the model driver answers every request; keep its share of a run bounded (requests are in
+    // generation order, so the cut is deterministic): by count and by volume
+    let (max_n, max_bytes) = if ctx.thorough() { (40000usize, 600_000_000usize) } else { (14000, 250_000_000) };
+    let mut bytes = 0usize;
+    let mut written = 0usize;
     for (a, b) in &s.requests {
+        if written >= max_n || bytes + a.len() > max_bytes {
+            break;
+        }
+        bytes += a.len();
+        written += 1;
         writeln!(rq, "{a}").unwrap();
         writeln!(im, "{b}").unwrap();
     }
@@ -91,7 +101,7 @@ fn write_summary(ctx: &Ctx, prop: &str, s: &Summary, rule: &str, extra: &str) {
     j.push_str(&format!(" \"evaluations\": {},\n", s.evaluations));
     j.push_str(&format!(" \"distinct_nontrivial\": {},\n", s.nontrivial_keys.len()));
     j.push_str(&format!(" \"rule\": {},\n", wire::json_str(rule)));
-    j.push_str(&format!(" \"requests\": {},\n", s.requests.len()));
+    j.push_str(&format!(" \"requests\": {},\n \"requests_generated\": {},\n", written, s.requests.len()));
     j.push_str(" \"distribution\": {");
     j.push_str(
         &s.tags
